@@ -146,10 +146,24 @@ func (x *Exec) heapDefault(epoch int, region string, srt Sort) Term {
 }
 
 // noteWrite records a store through reference ref for the syntactic part of the frame check.
-func (x *Exec) noteWrite(ref Term) {
+func (x *Exec) noteWrite(ref Term, regions ...string) {
 	if !x.C.AllocatedHere(ref.S) {
 		x.oldWrites++
+		if x.dirty == nil {
+			x.dirty = map[string]bool{}
+		}
+		if len(regions) == 0 {
+			x.dirtyAll = true
+		}
+		for _, r := range regions {
+			x.dirty[r] = true
+		}
 	}
+}
+
+// regionClean: no store of the execution can have changed an object of this region that existed at entry.
+func (x *Exec) regionClean(region string) bool {
+	return !x.dirtyAll && !x.dirty[region]
 }
 
 func (x *Exec) heapSet(st *State, region string, t Term) {
@@ -348,7 +362,7 @@ func (x *Exec) Store(st *State, p PtrV, v Val) error {
 			nel := x.writePath(el, p.RootT, p.Path[1:], vt)
 			narr = Store(arr, p.Path[0].Index, nel)
 		}
-		x.noteWrite(p.Base)
+		x.noteWrite(p.Base, p.Region)
 		x.heapSet(st, p.Region, Store(h, p.Base, narr))
 		return nil
 	}
@@ -356,7 +370,7 @@ func (x *Exec) Store(st *State, p PtrV, v Val) error {
 	h := x.heapGet(st, p.Region, hs)
 	obj := Select(h, p.Base)
 	nobj := x.writePath(obj, p.RootT, p.Path, vt)
-	x.noteWrite(p.Base)
+	x.noteWrite(p.Base, p.Region)
 	x.heapSet(st, p.Region, Store(h, p.Base, nobj))
 	return nil
 }
